@@ -19,6 +19,7 @@ EXPLANATION = (
     "(the rules are order-independent); ids are distinct until the 64-bit counter wraps."
     ' (deliver-by-key, completeness) from the point where a response loop has a decoded response every path to the next read consults the pending table (notifies excepted); (index-travels, completeness) what a batch function returns on every path is the vector stored by request index, or an order-preserving buffered/join_all pipeline over the requests.'
     ' A burst writer (a function that queues frames and writes them itself under the writer lock) is judged in its own right: every MessageBuilder::id in it is the key registered in the same pass, a frame is queued only behind the Ok edge of its registration, and no registration is reachable from a write of the burst.'
+    " PendingRequestGuard::register builds the guard only after the entry was inserted: every guard literal there is dominated by the insert, so the duplicate refusal drops nothing that would remove the in-flight owner's entry."
 )
 ASSUMPTIONS = ["HashMap insert/remove, mpsc and oneshot channels have their documented semantics", "AtomicU64::fetch_add is atomic"]
 
@@ -212,6 +213,17 @@ def run(facts, R):
                         "register inserts through %s without being on the Vacant edge of entry(request_id); guards: %s" % (render(slot)[:80], texts(fs)), t.get("span"),
                         "entry(request_id): Vacant -> insert, Occupied -> refuse")
 
+            # ... and the refusal touches nothing: an armed guard that exists while the duplicate is refused is dropped by the early return and
+            # its Drop removes the key - the entry of the call that owns the id.  A guard is built only where the insert has happened
+            gty = module + "::PendingRequestGuard"
+            from analysis.guards import struct_constructions as _sc
+            ins_pts = [i for i, _ in ins + vac]
+            for gb, gi, gj, gs in _sc(facts, gty):
+                if gb is not rg:
+                    continue
+                R.check(any(rg.dominates(x, gi) and x != gi for x in ins_pts), "own-entry-only", rg.path, "the guard is built after its entry was inserted",
+                        "register builds the armed guard before the duplicate test: the refusal path drops it and its Drop removes the in-flight call's entry under that id",
+                        gs.get("span"), "guard literal dominated by the insert")
         # ---------------- deliver-by-key --------------------------------------------------------------
         lb = facts.body(loopfn)
         ls = Sym(lb)
